@@ -57,6 +57,7 @@ type group struct {
 	size     int // Marshal length
 	newPt    func() lpt
 	gen      func() lpt // the library's generator object (never written to)
+	random   func(r *mon.Rand) (*big.Int, lpt, error)
 	baseMult func(e lpt, k []byte) (lpt, error)
 	mult     func(e, a lpt, k []byte) (lpt, error)
 	add      func(e, a, b lpt) lpt
@@ -72,6 +73,10 @@ func grpG1() *group {
 		name: "g1", size: 64,
 		newPt: func() lpt { return new(h.G1) },
 		gen:   func() lpt { return h.Gen1 },
+		random: func(r *mon.Rand) (*big.Int, lpt, error) {
+			k, p, err := h.RandomG1(r)
+			return k, p, err
+		},
 		baseMult: func(e lpt, k []byte) (lpt, error) {
 			r, err := e.(*h.G1).ScalarBaseMult(k)
 			if err != nil {
@@ -100,6 +105,10 @@ func grpG2() *group {
 		name: "g2", size: 128,
 		newPt: func() lpt { return new(h.G2) },
 		gen:   func() lpt { return h.Gen2 },
+		random: func(r *mon.Rand) (*big.Int, lpt, error) {
+			k, p, err := h.RandomG2(r)
+			return k, p, err
+		},
 		baseMult: func(e lpt, k []byte) (lpt, error) {
 			r, err := e.(*h.G2).ScalarBaseMult(k)
 			if err != nil {
@@ -413,6 +422,28 @@ func groupWorkload(x *mon.Ctx, g *group) {
 			continue
 		}
 		g.lawBattery(c, i)
+		c.End()
+	}
+
+	// F9: RandomG1/RandomG2: k in [1,N-1] read from the given source and [k]generator
+	for i, cnt := 0, x.Scale(8, 200); i < cnt; i++ {
+		c := x.Begin("%s Random%s #%d with a seeded byte source", n, map[string]string{"g1": "G1", "g2": "G2"}[n], i)
+		if c == nil {
+			continue
+		}
+		c.Class("%s/random", n)
+		var k *big.Int
+		var p lpt
+		var err error
+		if c.Call("Random", func() { k, p, err = g.random(c.R) }) {
+			if err != nil || k == nil {
+				c.Fail("reject", "Random failed with a source that never fails: %v", err)
+			} else if k.Sign() <= 0 || k.Cmp(bn.N) >= 0 {
+				c.Fail("mismatch", "Random: k = %x outside [1, N-1]", k)
+			} else {
+				g.eqPoint(c, "Random", p, g.rgen.Mul(k))
+			}
+		}
 		c.End()
 	}
 
